@@ -1,8 +1,9 @@
 /- Driver stream `c06`: serde trees -> postcard/bincode bytes; Policies serde model. -/
 import FuelVerif.Basic.Loop
-import FuelVerif.Model.PoliciesSerde
+import FuelVerif.Model.PoliciesWire
+import FuelVerif.Model.PoliciesJson
 namespace FuelVerif.Drv.C06
-open FuelVerif FuelVerif.Serde FuelVerif.PoliciesSerde FuelVerif.Gen.Policies
+open FuelVerif FuelVerif.Serde FuelVerif.PoliciesSerde FuelVerif.Gen.Policies FuelVerif.Gen.SerdeShapes FuelVerif.PoliciesJson
 
 def tokenize (s : String) : List String :=
   let s := (s.replace "(" " ( ").replace ")" " ) "
@@ -63,34 +64,97 @@ partial def showTree : Tree → String
 partial def showMany (xs : List Tree) : String := " ".intercalate (xs.map showTree)
 end
 
-/-- `postcard::from_bytes::<Policies>`: u32 bits, then the layout `visit_seq` asks for; trailing bytes ignored -/
-def policiesFromPostcard (bs : Bytes) : Option Policies :=
-  match pcDec .u32 bs with
-  | some (.u32 bits, r) =>
-    let shape := if isLegacy legacyMaskSeq bits then Shape.tuple [.u64, .u64, .u64, .u64] else Shape.seq .u64
-    match pcDec shape r with
-    | some (t, _) =>
-      match deSeq (.tuple [.u32 bits, t]) with
-      | .ok p => some p
-      | .error _ => none
-    | none => none
+def treesEq (a b : Tree) : Bool := showTree a == showTree b
+
+/-- `tree <Type> <sexpr> <postcard hex> <bincode hex>`: the recorded tree of a real value and the real
+crates' bytes. Checked: the tree has the GENERATED shape of the type; the model encoders reproduce the
+bytes; the model decoders, run on the REAL bytes with the generated shape, return exactly the recorded tree
+and no rest. -/
+def checkTree (T : TypeName) (t : Tree) (pc bc : Bytes) : String :=
+  let s := shapeOf T
+  let errs : List String :=
+    (if hasShapeB s t then [] else ["tree-does-not-have-the-generated-shape"]) ++
+    (if pcEnc t == pc then [] else [s!"postcard-enc:{toHex (pcEnc t)}"]) ++
+    (if bcEnc t == bc then [] else [s!"bincode-enc:{toHex (bcEnc t)}"]) ++
+    (match pcDecode policiesValid s pc with
+     | some (t', []) => if treesEq t' t then [] else [s!"postcard-dec-differs:{showTree t'}"]
+     | some (_, _ :: _) => ["postcard-dec-leaves-rest"]
+     | none => ["postcard-dec-fails"]) ++
+    (match bcDecode policiesValid s bc with
+     | some (t', []) => if treesEq t' t then [] else [s!"bincode-dec-differs:{showTree t'}"]
+     | some (_, _ :: _) => ["bincode-dec-leaves-rest"]
+     | none => ["bincode-dec-fails"])
+  if errs.isEmpty then "ok" else " ".intercalate errs
+
+/-! JSON side of Policies. The request describes the object field by field (`key:kind:payload`), the
+harness renders it as JSON text for serde_json; the text layer itself is not modelled. -/
+
+def parseElem (s : String) : JElem :=
+  match s.toNat? with
+  | some n => .num n
+  | none => .other
+
+/-- `s:<hex of the utf-8 string>` | `n:<decimal>` | `a:<e1,e2,...>` (`-` = empty) | `o:<anything>` -/
+def parseField (tok : String) : Option (String × JVal) :=
+  match tok.splitOn ":" with
+  | [k, "s", h] => (ofHex h).map (fun bs => (k, JVal.str (bs.map (fun b => Char.ofNat b.toNat))))
+  | [k, "n", d] => d.toNat?.map (fun n => (k, JVal.num n))
+  | [k, "a", es] => some (k, JVal.arr (if es == "-" then [] else (es.splitOn ",").map parseElem))
+  | [k, "o", _] => some (k, JVal.other)
   | _ => none
 
+def errClass : Err → String
+  | .duplicateBits => "duplicate-bits" | .duplicateValues => "duplicate-values"
+  | .bitsBeforeValues => "bits-before-values" | .missingBits => "missing-bits" | .missingValues => "missing-values"
+  | .notSynchronized => "not-synchronized" | _ => "invalid"
+
+/-- serde_json's compact rendering of the object `serJson` describes (names, `|`, spaces, hex digits and
+decimal numbers only: nothing to escape) -/
+def renderJson (fields : List (String × JVal)) : String :=
+  let val : JVal → String
+    | .str cs => "\"" ++ String.ofList cs ++ "\""
+    | .num n => toString n
+    | .arr xs => "[" ++ ",".intercalate (xs.map (fun | .num n => toString n | .other => "null")) ++ "]"
+    | .other => "null"
+  "{" ++ ",".intercalate (fields.map (fun (k, v) => "\"" ++ k ++ "\":" ++ val v)) ++ "}"
+
 def handle : List String → String
+  | "poljs" :: bits :: vals =>
+    match bits.toNat? with
+    | some b => renderJson (serJson ⟨b, vals.map (fun v => natOr v 0)⟩)
+    | none => "bad-op"
+  | "polj" :: toks =>
+    match toks.mapM parseField with
+    | none => "bad-op"
+    | some fields =>
+      match deJson fields with
+      | .ok p => s!"ok {showTree (ser p)}"
+      | .error e => s!"err {errClass e}"
   | "pol" :: bits :: vals =>
     match bits.toNat? with
     | some b => showTree (ser ⟨b, vals.map (fun v => natOr v 0)⟩)
     | none => "bad-op"
-  | "tree" :: rest =>
-    match parseTree (tokenize (" ".intercalate rest)) with
-    | some (t, []) => s!"{toHex (pcEnc t)} {toHex (bcEnc t)}"
-    | _ => "bad-op"
+  | "tree" :: ty :: rest =>
+    match TypeName.ofString? ty, rest.reverse with
+    | some T, bc :: pc :: sx =>
+      match parseTree (tokenize (" ".intercalate sx.reverse)), ofHex pc, ofHex bc with
+      | some (t, []), some pc, some bc => checkTree T t pc bc
+      | _, _, _ => "bad-op"
+    | _, _ => "bad-op"
+  | ["de", ty, fmt, h] =>
+    match TypeName.ofString? ty, ofHex h with
+    | some T, some bs =>
+      let r := if fmt == "pc" then pcDecode policiesValid (shapeOf T) bs else bcDecode policiesValid (shapeOf T) bs
+      match r with
+      | some (t, rest) => s!"ok {rest.length} {showTree t}"
+      | none => "err"
+    | _, _ => "bad-op"
   | ["polde", h] =>
     match ofHex h with
     | none => "bad-op"
     | some bs =>
-      match policiesFromPostcard bs with
-      | some p => s!"ok {showTree (ser p)}"
+      match policiesFromWire pcDec bs with
+      | some (p, _) => s!"ok {showTree (ser p)}"
       | none => "err"
   | _ => "bad-op"
 
